@@ -62,6 +62,29 @@ MUTANTS = [
     ("c20-from-signed-zero-negint", ["C20"], NB, "                    let n = if n >= 0 {", "                    let n = if n > 0 {", "kill"),
     ("c20-eq-u64-for-signed", ["C20"], VP, "    eq_i64[i64 => i8 i16 i32 i64]", "    eq_f64[f64 => i8 i16 i32]\n    eq_i64[i64 => i64]", "kill"),
     ("c20-as-name-forgets-keywords", ["C20"], VM, "            Value::Symbol(s) => Some(s),\n            Value::Keyword(s) => Some(s),\n            Value::String(s) => Some(s),", "            Value::Symbol(s) => Some(s),\n            Value::String(s) => Some(s),", "kill"),
+    # ---- C05
+    ("c05-overflow-macro-boundary", ["C05"], PM, "    ($a:ident * $radix:ident + $b:ident, $c:expr) => {\n        $a >= $c / $radix && ($a > $c / $radix || $b > $c % $radix)", "    ($a:ident * $radix:ident + $b:ident, $c:expr) => {\n        $a >= $c / $radix && ($a > $c / $radix || $b >= $c % $radix)", "kill"),
+    ("c05-minus-zero-becomes-float", ["C05"], PM, "                    if neg > 0 {", "                    if neg >= 0 {", "kill"),
+    ("c05-pow10-table-typo", ["C05"], PM, "1e020, 1e021, 1e022, 1e023,", "1e020, 1e021, 1e023, 1e023,", "kill"),
+    ("c05-drop-infinity-check-ff", ["C05"], PM, "                        f *= pow;\n                        if f.is_infinite() {\n                            return Err(self.error(ErrorCode::NumberOutOfRange));\n                        }", "                        f *= pow;", "kill"),
+    ("c05-exponent-wrapping-add", ["C05"], PM, "            starting_exp.saturating_add(exp)", "            starting_exp.wrapping_add(exp)", "kill"),
+    ("c05-long-integer-radix-ten-again", ["C05"], PM, "                    let f = significand as f64 * f64::from(radix).powi(exponent);", "                    let f = significand as f64 * 10f64.powi(exponent);", "kill"),
+    # ---- C06
+    ("c06-peek-treats-read-error-as-eof", ["C06"], PR, "                Some(Err(err)) => Err(Error::io(err)),\n                Some(Ok(ch)) => {\n                    self.ch = Some(ch);", "                Some(Err(_)) => Ok(None),\n                Some(Ok(ch)) => {\n                    self.ch = Some(ch);", "kill"),
+    ("c06-linecol-iterator-drops-error", ["C06"], PI, "            Some(Err(e)) => Some(Err(e)),", "            Some(Err(_)) => None,", "kill"),
+    ("c06-ff-terminates-symbols-in-stream-only", ["C06"], PR, "                Some(b' ') | Some(b'\\n') | Some(b'\\t') | Some(b'\\r') | Some(b')') | Some(b']')\n                | Some(b'(') | Some(b'[') | Some(b';') | None => {\n                    if scratch == b\".\" {", "                Some(b' ') | Some(b'\\n') | Some(b'\\t') | Some(b'\\r') | Some(b')') | Some(b']')\n                | Some(b'(') | Some(b'[') | Some(b';') | Some(0x0C) | None => {\n                    if scratch == b\".\" {", "kill"),
+    ("c06-stream-elisp-forgets-non-ascii", ["C06"], PR, "                    if ch > 127 {\n                        seen_non_ascii = true;\n                    }\n                    scratch.push(ch);", "                    scratch.push(ch);", "kill"),
+    ("c06-next-swallows-error-after-peeked", ["C06"], PR, "            None => match self.iter.next() {\n                Some(Err(err)) => Err(Error::io(err)),\n                Some(Ok(ch)) => Ok(Some(ch)),", "            None => match self.iter.next() {\n                Some(Err(_)) => Ok(Some(b' ')),\n                Some(Ok(ch)) => Ok(Some(ch)),", "kill"),
+    # ---- C07
+    ("c07-string-fragment-write", ["C07"], PT, "        writer.write_all(fragment.as_bytes())", "        writer.write(fragment.as_bytes()).map(drop)", "kill"),
+    ("c07-ignore-separator-error", ["C07"], PT, "                    self.formatter.begin_seq_element(&mut self.writer, i == 0)?;\n                    self.print(pair.car())?;", "                    let _ = self.formatter.begin_seq_element(&mut self.writer, i == 0);\n                    self.print(pair.car())?;", "kill"),
+    ("c07-customised-nil-diverges", ["C07"], PT, "            NilSyntax::Token => writer.write_all(b\"#nil\"),", "            NilSyntax::Token => writer.write_all(b\"#nil \"),", "kill"),
+    ("c07-elisp-bytes-write", ["C07"], PT, "                        writer.write_all(&OCTAL_CHARS[index..=index])?;", "                        writer.write(&OCTAL_CHARS[index..=index])?;", "kill"),
+    # ---- C10
+    ("c10-datum-accepts-leading-dot", ["C10"], PM, "                            if !have_value {\n                                return Err(self.peek_error(ErrorCode::ExpectedSomeValue));\n                            }\n                            let (cdr, cdr_meta) = self.expect_datum()?.into_inner();", "                            let (cdr, cdr_meta) = self.expect_datum()?.into_inner();", "kill"),
+    ("c10-datum-list-iter-skips-dot-marker", ["C10"], DA, "            ListCursor::Dot(value, info) => {\n                self.0 = ListCursor::Rest(value, info);\n                None\n            }", "            ListCursor::Dot(value, info) => {\n                self.0 = ListCursor::Exhausted;\n                Some(Ref { value, info })\n            }", "kill"),
+    ("c10-datum-quote-eof-code", ["C10"], PM, "                let quoted = self\n                    .next_datum()?\n                    .ok_or_else(|| self.peek_error(ErrorCode::EofWhileParsingList))?;", "                let quoted = self\n                    .next_datum()?\n                    .ok_or_else(|| self.peek_error(ErrorCode::EofWhileParsingValue))?;", "kill"),
+    ("c10-datum-vector-no-depth-charge", ["C10", "C03"], PM, "                let ret = self.parse_vector_meta(close);\n\n                self.remaining_depth += 1;", "                let ret = self.parse_vector_meta(close);\n", "kill"),
 ]
 
 
